@@ -287,29 +287,36 @@ theorem decimal_ne_nil (n : Nat) : decimal n ≠ [] := by
   rw [decimal]
   split <;> simp
 
-theorem parseUsize_decimal (n : Nat) (h : n < 18446744073709551616) : parseUsize (decimal n) = some n := by
+theorem parseI32_decimal (n : Nat) (h : n < 2147483648) : parseI32 (decimal n) = some (n : Int) := by
   have hd := decimal_digits n
   have hne := decimal_ne_nil n
   have hv := decimal_val n
-  unfold parseUsize
   cases hl : decimal n with
   | nil => exact absurd hl hne
   | cons d ds =>
     rw [hl] at hd hv
+    have hdig : isDigit d = true := by
+      simp only [List.all_cons, Bool.and_eq_true] at hd
+      exact hd.1
     have h43 : d ≠ 43 := by
-      intro e
-      subst e
-      simp [isDigit] at hd
-    have : stripPlus (d :: ds) = d :: ds := by
+      intro e; subst e; simp [isDigit] at hdig
+    have h45 : d ≠ 45 := by
+      intro e; subst e; simp [isDigit] at hdig
+    have hs : stripPlus (d :: ds) = d :: ds := by
       unfold stripPlus
       split
       · rename_i heq
         injection heq with h1 h2
         exact absurd h1 h43
       · rfl
-    simp only [this]
-    simp only [List.all_cons, Bool.and_eq_true] at hd
-    simp [hd, hv, h]
+    unfold parseI32
+    split
+    · rename_i heq
+      injection heq with h1 h2
+      exact absurd h1 h45
+    · simp only [hs]
+      simp only [List.all_cons, Bool.and_eq_true] at hd
+      simp [hd, hv, h]
 
 /-! ### ods text loop -/
 
@@ -336,7 +343,7 @@ theorem runOds_piece (s : Txt) (pc : Piece) (r : List Ev) (h : pc.wf = true) :
     simp only [Piece.wf, decide_eq_true_eq] at h
     have h1 : odsStep (.normal s false) (.start textS [("text:c", decimal n)])
         = .cont (.normal (s ++ List.replicate n 32) false) := by
-      simp [odsStep, getAttr, parseUsize_decimal n h, textS, annotation, textP]
+      simp [odsStep, getAttr, parseI32_decimal n h, textS, annotation, textP]
     have h2 : ∀ s, odsStep (.normal s false) (.end_ textS) = .cont (.normal s false) := by
       intro s; simp [odsStep, textS, tableCell, coveredCell]
     simp only [Piece.evs, List.cons_append, List.nil_append]
@@ -489,5 +496,32 @@ theorem atoiUsize_decimal (n : Nat) (h : n < 18446744073709551616) : atoiUsize (
   simp [atoiUsize, decimal_ne_nil, decimal_val, h]
   have := decimal_digits n
   simpa using this
+
+/-! ### no step panics -/
+
+theorem siStep_no_panic (c : Name) (m : SiMode) (e : Ev) (x : String) : siStep c m e ≠ .panic x := by
+  intro h
+  unfold siStep at h
+  split at h <;> (try split at h) <;> (try split at h) <;> (try split at h) <;> cases h
+
+theorem readV_no_panic (t : Option String) (ss : List Txt) (v : Txt) (x : String) : readV t ss v ≠ .panic x := by
+  intro h
+  unfold readV at h
+  split at h
+  · dsimp only at h
+    split at h <;> cases h
+  all_goals cases h
+
+theorem cellStep_no_panic (t : Option String) (ss : List Txt) (m : CellMode) (e : Ev) (x : String) :
+    cellStep t ss m e ≠ .panic x := by
+  intro h
+  unfold cellStep at h
+  split at h
+  all_goals (try split at h)
+  all_goals (try split at h)
+  all_goals (try split at h)
+  all_goals (try (cases h; done))
+  all_goals (try (exact absurd (by assumption) (siStep_no_panic _ _ _ _)))
+  all_goals (exact absurd h (readV_no_panic _ _ _ _))
 
 end XmlText
